@@ -713,8 +713,8 @@ pub fn run(ctx: &Ctx) {
         }
     }
     let (cases, depth, ops) = match ctx.tier {
-        Tier::Quick => (1000, 2, 6),
-        Tier::Thorough => (40000, 3, 16),
+        Tier::Quick => (6000, 2, 6),
+        Tier::Thorough => (120000, 3, 16),
     };
     let enc = |c: &Case| serde_json::to_value(c).unwrap_or(Value::Null);
     ctx.campaign("name-ops", cases, || case_strategy(depth, ops, avoid.clone()), check, enc);
